@@ -25,10 +25,12 @@
    until the peer delivers).  In the buffering variant written units are held back until a
    flush succeeds.
 
-   Known deviations of the pinned code (named, see DevNativeCloseFlushLost and
-   DevRustlsHsFlushLost) set the ghost variable dev; the properties are stated modulo dev and,
-   in the strict configuration, without it (the strict run must fail: that is the finding at
-   model level).  FixNativeClose / FixRustlsHsFlush model the proposed repairs.               *)
+   The known deviation of the code (named, see DevRustlsHsFlushLost) sets the ghost variable dev;
+   the properties are stated modulo dev and, in the strict configuration, without it (the strict
+   run must fail: that is the finding at model level).  FixRustlsHsFlush models its repair.
+   The former deviation DevNativeCloseFlushLost was repaired in /repo (commit 05a3075): it is
+   now the switch CloseFlushes (TRUE = as the code is), kept FALSE in one control configuration
+   that must fail.                                                                            *)
 EXTENDS Integers, Sequences, FiniteSets, TLC
 
 CONSTANTS Backends,            \* subset of {"native", "rustls"}
@@ -44,8 +46,8 @@ CONSTANTS Backends,            \* subset of {"native", "rustls"}
           PendingIsWouldBlock, \* AllowStd::with_context maps Pending to WouldBlock
           MidResumes,          \* MidHandshake::poll keeps the stream and returns Pending
           FinalFlush,          \* handshake() flushes after finish_handshake()
+          CloseFlushes,        \* TlsStream::poll_close flushes the stream after SSL_shutdown (05a3075)
           \* repairs, FALSE = as the code is
-          FixNativeClose,      \* TlsStream::poll_close re-polls the flush of the close alert
           FixRustlsHsFlush     \* Stream::handshake remembers a flush that returned Pending
 
 E == {"c", "s"}
@@ -393,24 +395,33 @@ SSL_shutdown(e) ==
   /\ UNCHANGED <<cfgv, pc, task, sw, hsi, inn, sent, written, handshaken, loc, held, wire, teof, recv,
                  eof, budget, dev>>
 
-\* KNOWN DEVIATION. OpenSSL flushes the BIO after the alert and ignores the result; poll_close
-\* maps the successful SSL_shutdown to Ready(Ok) and never flushes again. A transport whose
-\* poll_flush returns Pending at that moment keeps the close alert: the peer never sees the end
-\* of the stream although close() reported success.
+\* SSL_shutdown flushes the BIO after the alert and IGNORES the result (ssl3_dispatch_alert).
+\* Before commit 05a3075 poll_close mapped the successful SSL_shutdown to Ready(Ok) and never
+\* flushed again: a transport whose poll_flush returned Pending at that moment kept the close
+\* alert, the peer never saw the end of the stream although close() reported success
+\* (CloseFlushes = FALSE, control configuration). Since the repair poll_close remembers that the
+\* alert is out and drives a flush of the stream to completion (TS_poll_close_flush).
 DevNativeCloseFlushLost(e) == buffering /\ held[e] # <<>>
 
 SSL_shutdown_BIO_flush(e, p) ==
   /\ Native(e) /\ pc[e] = "close" /\ op[e] = "shut_flush"
   /\ CanPend(p) /\ Spend(p)
-  /\ IF p
-     THEN IF FixNativeClose
-          THEN UNCHANGED <<pc, op, held, wire, task, sw, dev>>
-          ELSE /\ Goto(e, NextPc(e, "close"))
-               /\ dev' = IF DevNativeCloseFlushLost(e) /\ dev = "none"
-                         THEN "native_close_flush_lost" ELSE dev
-               /\ UNCHANGED <<held, wire, task, sw>>
-     ELSE TFlush(e) /\ Goto(e, NextPc(e, "close")) /\ UNCHANGED dev
+  /\ IF p THEN UNCHANGED <<held, wire, task, sw>> ELSE TFlush(e)
+  /\ IF CloseFlushes
+     THEN op' = [op EXCEPT ![e] = "close_flush"] /\ UNCHANGED <<pc, dev>>
+     ELSE /\ Goto(e, NextPc(e, "close"))
+          /\ dev' = IF p /\ DevNativeCloseFlushLost(e) /\ dev = "none"
+                    THEN "native_close_flush_lost" ELSE dev
   /\ UNCHANGED <<cfgv, hsi, out, inn, sent, written, handshaken, loc, teof, recv, eof>>
+
+\* TlsStream::poll_close after the alert is out: with_context(|s| s.get_mut().flush()); a Pending
+\* flush makes poll_close return Pending, the next poll skips SSL_shutdown and flushes again
+TS_poll_close_flush(e, p) ==
+  /\ Native(e) /\ pc[e] = "close" /\ op[e] = "close_flush"
+  /\ CanPend(p) /\ Spend(p)
+  /\ IF p THEN UNCHANGED <<pc, op, held, wire, task, sw>>
+          ELSE TFlush(e) /\ Goto(e, NextPc(e, "close"))
+  /\ UNCHANGED <<cfgv, hsi, out, inn, sent, written, handshaken, loc, teof, recv, eof, dev>>
 
 \* ---------------------------------------------------------------------------------------
 \* backend "rustls": futures-rustls Stream::handshake driven by MidHandshake::poll
@@ -611,6 +622,7 @@ TrSized(e, l, p) == \/ OI_poll_write(e, l, p)
 TrFlush(e, p) == \/ OI_poll_read_flush(e, p)
                  \/ Flush_inner_poll_flush(e, p)
                  \/ SSL_shutdown_BIO_flush(e, p)
+                 \/ TS_poll_close_flush(e, p)
                  \/ RS_hs_flush(e, p)
                  \/ RS_io_poll_close(e, p)
 
@@ -647,6 +659,8 @@ NoDeadlockStrict == ~Stuck
 NoWaitOnUnflushed == (Stuck /\ \E e \in E : held[e] # <<>> \/ out[e] # <<>>) => Known
 
 NoFailure == \A e \in E : pc[e] # "failed"
+\* since the repair of poll_close (05a3075) the native backend has no exempted deviation left
+NativeClean == (backend = "native" /\ CloseFlushes) => dev = "none"
 
 \* application data: in order, exactly once (a prefix of 1..payload at any time)
 InOrderExactlyOnce == \A e \in E : recv[e] = [k \in 1..Len(recv[e]) |-> k]
@@ -684,7 +698,7 @@ PcRank(e) == CASE pc[e] = "hs" -> 8 [] pc[e] = "hsflush" -> 7
                [] OTHER -> (CASE pc[e] = "read" -> 6 [] pc[e] = "write" -> 5 [] pc[e] = "flush" -> 4
                               [] pc[e] = "close" -> 3 [] pc[e] = "readeof" -> 2 [] OTHER -> 1)
 OpRank(e) == CASE op[e] = "eng" -> 3 [] op[e] = "bio_write" -> 2 [] op[e] = "bio_flush" -> 4
-               [] op[e] = "bio_read" -> 2 [] op[e] = "shut_flush" -> 1
+               [] op[e] = "bio_read" -> 2 [] op[e] = "shut_flush" -> 2 [] op[e] = "close_flush" -> 1
                [] op[e] = "idle" -> 9 [] op[e] = "flushW" -> 2 [] op[e] = "flushF" -> 1
                [] op[e] = "rd" -> 1 [] op[e] = "io_close" -> 1
                [] op[e] = "w_io" -> (IF out[e] = <<>> THEN 8 ELSE 2)
